@@ -66,3 +66,9 @@ func spec_wm(p []rune, s []rune, np int, ns int) bool {
 //@   loop 1: invariant 0 <= ridx && ridx <= len(addrs) && len(s) == len(addrs) && vcFresh(s)
 //@   loop 1: decreases len(addrs) - ridx
 //@   serves C14
+
+// HashMailboxName: SHA-1 in lower-case hex: a deterministic 40-character function of the name.
+//@ func HashMailboxName
+//@   trusted
+//@   pure
+//@   ensures len(ret) == 40
